@@ -1,0 +1,15 @@
+//go:build verif
+
+// Contracts for package token, read by the verification machinery in /verif.
+// This file contains no executable code; it is compiled only with -tags verif.
+package token
+
+/*@
+// the keyword table is a constant map: its content is its own specification
+spec kw(lit string) TokenType
+
+func KeywordToTokenType
+  pure
+  trusted
+  ensures result == kw(keyword)
+@*/
